@@ -187,6 +187,36 @@ func c19Cmp(name string) func(x, y c19Rec) bool {
 	return nil
 }
 
+// The same records in a DIFFERENT struct type that has the same name (a function-local type prints as main.c19Rec too) and
+// the same field names at other positions, sorted by the same field-name descriptors: the answer must be the same id
+// sequence.  (Anything keyed by the type's printed name instead of the type — a reflection cache — mixes the two up.)
+func c19TwinSort(ds []c19D, recs []c19Rec) (string, bool) {
+	type c19Rec struct {
+		ID int
+		C  fpgo.ComparableOrdered[int]
+		D  fpgo.ComparableOrdered[string]
+		A  fpgo.ComparableOrdered[int]
+		B  fpgo.ComparableString
+	}
+	var sds []fpgo.SortDescriptor[c19Rec]
+	for _, d := range ds {
+		if d.kind != 'f' {
+			return "", false
+		}
+		sds = append(sds, fpgo.NewFieldSortDescriptor[c19Rec](string(d.field), d.asc))
+	}
+	in := make([]c19Rec, len(recs))
+	for i, r := range recs {
+		in[i] = c19Rec{ID: r.ID, A: r.A, B: r.B, C: r.C, D: r.D}
+	}
+	out := fpgo.SortedListBySortDescriptors(sds, in...)
+	ids := make([]string, len(out))
+	for i, r := range out {
+		ids[i] = strconv.Itoa(r.ID)
+	}
+	return "[" + strings.Join(ids, " ") + "]", true
+}
+
 func c19Run(line string) string {
 	i := strings.IndexByte(line, ':')
 	if i < 0 {
@@ -221,6 +251,15 @@ func c19Run(line string) string {
 			return "bad-case"
 		}
 		snapshot := c19Ids(recs)
+		// the descriptor list / builder is used a second time on a fresh copy of the input: the answer must be the same
+		// (a sort that edits its descriptor list — reordering, consuming it — is right the first time only)
+		orig := append([]c19Rec{}, recs...)
+		again := func(first string, second string) string {
+			if second != strings.TrimSuffix(first, " mutated") {
+				return first + " again=" + second
+			}
+			return first
+		}
 		switch api {
 		case "sl", "sb":
 			var sds []fpgo.SortDescriptor[c19Rec]
@@ -233,11 +272,17 @@ func c19Run(line string) string {
 			}
 			if api == "sb" {
 				fpgo.SortBySortDescriptors(sds, recs)
-				return c19Ids(recs)
+				fpgo.SortBySortDescriptors(sds, orig)
+				return again(c19Ids(recs), c19Ids(orig))
 			}
 			out := c19Ids(fpgo.SortedListBySortDescriptors(sds, recs...))
+			ids1 := out
 			if c19Ids(recs) != snapshot {
 				out += " mutated"
+			}
+			out = again(out, c19Ids(fpgo.SortedListBySortDescriptors(sds, orig...)))
+			if tw, ok := c19TwinSort(ds, orig); ok && tw != ids1 {
+				out += " twin=" + tw
 			}
 			return out
 		case "slp", "bsp":
@@ -274,6 +319,10 @@ func c19Run(line string) string {
 			b := fpgo.NewSortDescriptorsBuilder[c19Rec]()
 			for k := 0; k < len(ds); k++ {
 				d := ds[k]
+				// a builder is a value: a second builder derived from the same shorter one afterwards (and dropped) must not
+				// change the first.  (Derived from builders of length < 3 only: with the library's own growth a length-3
+				// builder has spare capacity and two extensions of it do share their last slot.)
+				prev := b
 				switch {
 				case d.kind == 'f':
 					b = b.ThenWithFieldName(string(d.field), d.asc)
@@ -288,16 +337,20 @@ func c19Run(line string) string {
 				default:
 					b = b.ThenWithTransformerFunctor(c19Transformer(d.field), d.asc)
 				}
+				if len(prev) < 3 {
+					_ = prev.ThenWithFieldName("C", !d.asc) // the sibling
+				}
 			}
 			if api == "bs" {
 				b.Sort(recs)
-				return c19Ids(recs)
+				b.Sort(orig)
+				return again(c19Ids(recs), c19Ids(orig))
 			}
 			out := c19Ids(b.ToSortedList(recs...))
 			if c19Ids(recs) != snapshot {
 				out += " mutated"
 			}
-			return out
+			return again(out, c19Ids(b.ToSortedList(orig...)))
 		}
 	case "C":
 		less := c19Cmp(head[2])
